@@ -121,6 +121,9 @@ MODES = {
     "F64/fits": ("f8", 0, "fits"),
     "F16x3/npy": ("f2", 3, "npy"),
     "I32/fits": ("i4", 0, "fits"),
+    "I32/npy": ("i4", 0, "npy"),
+    "I16/fits": ("i2", 0, "fits"),
+    "U8/fits": ("u1", 0, "fits"),
 }
 
 
@@ -131,8 +134,11 @@ def make_image(w, h, mname):
     if ch == 0:
         if dt in ("u1",):
             arr = (base % 255 + 1).astype(dt)  # never 0 (= undefined for integer modes)
-        elif dt in ("i2", "i4"):
+        elif dt == "i2":
             arr = (base % 30000 + 1).astype(dt)
+        elif dt == "i4":
+            # spans far beyond the 16-bit range (a narrower buffer would wrap silently)
+            arr = ((base.astype(np.int64) * 70001 + 12345) % 2000000000 + 1).astype(dt)
         else:
             arr = (base * 0.25 + 0.5).astype(dt)
     elif dt == "u1":
@@ -282,7 +288,7 @@ def run(tier, seed):
         jobs.append(("sub", parent))
     if tier == "quick":
         sizes = [(w, h) for w in (1, 256, 257, 513) for h in (1, 256, 257, 513)]
-        modes = ["RGBA/png", "RGB/png", "F32/npy", "F32/fits", "U8/npy", "I16/npy"]
+        modes = ["RGBA/png", "RGB/png", "F32/npy", "F32/fits", "U8/npy", "I16/npy", "I32/npy", "I32/fits", "F64/fits", "F16x3/npy"]
     else:
         vals = (1, 2, 255, 256, 257, 300, 511, 512, 513, 600)
         sizes = [(w, h) for w in vals for h in vals]
